@@ -44,6 +44,13 @@
 // block-body codec), witnesses made over the hash the node takes from the
 // bytes; what the node accepts must keep the hash told to the submitter through
 // pool, read-back, proposed block and replicas.
+//
+// Fifth round (r5_backup_test.go, r5_limits_test.go): every proposal of every
+// family is also judged by real consensus.Service objects (the proposer's
+// newPrepareRequest / newBlockFromContext, verifyRequest and verifyBlock of a
+// backup that holds the pool and of one that never saw it); family `limits`
+// = pool contents exactly on / one below / one above MaxBlockSystemFee,
+// MaxTransactionsPerBlock and MaxBlockSize.
 package c07
 
 import (
@@ -191,6 +198,8 @@ type env struct {
 	pay payersCount
 	// fourth extension round (r4_encodings_test.go)
 	enc encCount
+	// fifth extension round (r5_backup_test.go, r5_limits_test.go)
+	r5 r5Count
 }
 
 // scenario of a state.
@@ -515,7 +524,7 @@ func TestCheck(t *testing.T) {
 		scriptCov = e.runScripts()
 	}
 	t1 := time.Now()
-	var attrBlockCov, staleCov, countCov, rebuiltCov, payersCov, encodingsCov map[string]any
+	var attrBlockCov, staleCov, countCov, rebuiltCov, payersCov, encodingsCov, limitsCov map[string]any
 	te0 := time.Now()
 	if want("encodings") {
 		encodingsCov = e.runEncodings()
@@ -530,6 +539,11 @@ func TestCheck(t *testing.T) {
 		blockCov = e.runBlocks()
 		attrBlockCov = e.runAttrBlocks()
 	}
+	tl0 := time.Now()
+	if want("limits") {
+		limitsCov = e.runLimits()
+	}
+	tLimits := time.Since(tl0)
 	if want("stale") {
 		staleCov = e.runStale()
 	}
@@ -546,7 +560,7 @@ func TestCheck(t *testing.T) {
 		feeCov = e.runFee()
 	}
 	t3 := time.Now()
-	fmt.Printf("C07 phases: sound+enc %.1fs, encodings %.1fs, rebuilt %.1fs, proposable %.1fs (of which payers %.1fs), fee+enc %.1fs\n", t1.Sub(t0).Seconds()-tEnc.Seconds(), tEnc.Seconds(), t1b.Sub(t1).Seconds(), t2.Sub(t1b).Seconds(), tPayers.Seconds(), t3.Sub(t2).Seconds())
+	fmt.Printf("C07 phases: sound+enc %.1fs, encodings %.1fs, rebuilt %.1fs, proposable %.1fs (of which payers %.1fs, limits %.1fs), fee+enc %.1fs\n", t1.Sub(t0).Seconds()-tEnc.Seconds(), tEnc.Seconds(), t1b.Sub(t1).Seconds(), t2.Sub(t1b).Seconds(), tPayers.Seconds(), tLimits.Seconds(), t3.Sub(t2).Seconds())
 	e.f.flush(r)
 	pprof.StopCPUProfile()
 	distinct := func(sub string) int { return len(e.outs[sub]) }
@@ -567,6 +581,9 @@ func TestCheck(t *testing.T) {
 			"blocks_in_the_middle": int(e.pay.midBlocks.Get()), "blocks_in_the_middle_carrying_a_cast_tx": int(e.pay.midBlocksWithTx.Get()), "block_jobs_skipped_as_the_tx_is_unpayable": int(e.pay.midUnbuildable.Get()), "distinct_pool_contents_proposed": int(e.pay.proposals.Get()),
 			"submissions_where_only_the_payer_of_the_leaving_tx_decides": int(e.pay.creditFlips.Get()), "variants_not_buildable": int(e.pay.unbuildable.Get()),
 			"distinct_outcomes": distinct("payers"), "distinct_proposal_outcomes": distinct("payers-proposal")},
+		"limits": map[string]any{"cases": int(e.r5.limCases.Get()), "transactions_pooled": int(e.r5.limPooled.Get()), "transactions_refused_for_a_fee_above_the_block_limit": int(e.r5.limRefused.Get()),
+			"proposals_that_left_pooled_transactions_out": int(e.r5.limCut.Get()), "distinct_outcomes": distinct("limits")},
+		"backup-side-consensus-service": map[string]any{"proposals_checked_by_real_services": int(e.r5.svcChecks.Get()), "distinct_outcomes": distinct("r5-backup"), "outcomes": e.outs["r5-backup"]},
 		"encodings": map[string]any{"menu_transactions": int(e.enc.items.Get()), "sites_with_another_spelling": int(e.enc.sites.Get()), "candidates_x_paths": int(e.enc.candidates.Get()),
 			"candidates_the_lax_codec_reads_as_the_same_content": int(e.enc.sameMeaning.Get()), "submissions": int(e.enc.submissions.Get()), "refused": int(e.enc.refused.Get()), "accepted": int(e.enc.accepted.Get()),
 			"witnesses_made_over_a_node_hash_other_than_the_canonical_one": int(e.enc.resigned.Get()), "proposals_from_accepted_bytes": int(e.enc.proposals.Get()), "getrawtransaction_read_backs": int(e.enc.rpcReadBack.Get()),
@@ -597,6 +614,11 @@ func TestCheck(t *testing.T) {
 		"rebuilt_caches":                           rebuiltCov,
 		"proposable_payers":                        payersCov,
 		"encodings_on_the_byte_paths":              encodingsCov,
+		"proposable_at_the_limits":                 limitsCov,
+		"proposable_at_the_limits_cases":           int(e.r5.limCases.Get()),
+		"proposable_at_the_limits_outcomes":        distinct("limits"),
+		"proposals_checked_by_consensus_services":  int(e.r5.svcChecks.Get()),
+		"consensus_service_distinct_outcomes":      distinct("r5-backup"),
 		"encodings_candidates_x_paths":             int(e.enc.candidates.Get()),
 		"encodings_submissions":                    int(e.enc.submissions.Get()),
 		"encodings_accepted":                       int(e.enc.accepted.Get()),
@@ -622,6 +644,8 @@ func TestCheck(t *testing.T) {
 		"required attribute fee = independent reference from the Policy getter getAttributeFee(type) (read by a test invocation): Conflicts x signers, NotaryAssisted x (NKeys+1), others x 1; Blockchain.CalculateAttributesFee is never consulted; fee-per-byte and the execution fee factor are read from the plain getters",
 		"single-validator family (committee = validator), P2PSigExtensions on, all hardforks active; account 4 is the only notary node; oracle node (account 3) and a pending request exist in the state named oracle only",
 		"NotaryAssisted: only the ledger rules (Notary signer present, attribute fee by NKeys) are in the oracle; NKeys consistency with the witnesses is the notary service's rule, not the ledger's",
+		"backup-side consensus service (r5): every proposal of every family is also handed to real consensus.Service objects (watch-only, started with a timer that never fires) over the proposer's ledger (holds the pool) and over the fresh replica: the service's own newPrepareRequest/newPayload make the PrepareRequest, it is serialised and parsed, verifyRequest of both services must accept it, the block of newBlockFromContext must have the hash of the block the ledgers accept, verifyBlock of both services must accept it (transactions from the pool on the proposer, from NewTransactionFromBytes on the replica); these methods are reached as the function values the service registered with dBFT (VerifContext(svc).Config), not through dBFT's message handling: payload signatures, view/primary checks and the missing-transaction requests of dBFT are not part of it (C19's subject)",
+		"limits (r5): MaxTransactionsPerBlock 4, MaxBlockSystemFee 25 GAS, MaxBlockSize = the two-transaction block +d in the size scenarios; zero and one-datoshi system fees are legal at admission (the transaction faults in the block, the block stays valid); the only refusal demanded at admission is SystemFee > MaxBlockSystemFee, as verifyAndPoolTx states; how many transactions the packing keeps is recorded, not demanded (only that the kept prefix forms a block every backup and ledger accepts and that it respects the limits)",
 		"proposable blocks: limits are checked on the serialised block (size), the selected set (count, system fee) and by the backup-side procedure of consensus.verifyBlock re-done on the fresh replica",
 		"policy values of the state policy-twice, Notary deposits, deployed/destroyed contracts and the behaviour of the hand-assembled contracts' verify methods are known from the construction of the histories, not read back from the node; getters that disagree with the history are reported",
 		"Conflicts records: inside the ledger's traceability window (index + MaxTraceableBlocks > height) the statement is demanded as written; for older records dao.HasTransaction documents that they are ignored, which the statement does not mention: such cases are counted, not judged (no-demand)",
